@@ -160,4 +160,31 @@ pub fn bump_str_contract(e: usize, n: usize) {
     let _ = lex.remainder();
 }
 
+// ------------------------------------------------------------------------------------------------
+// find_boundary / is_boundary on the real code (C02, C04, C12): least boundary >= index, identity on bytes
+
+pub fn find_boundary_str_contract(i: usize) {
+    // 1-, 2-, 3- and 4-byte characters; two different 4-byte characters, one of them followed by more text
+    let text = "a\u{e9}\u{20ac}\u{1f600}z\u{10000}.\u{10ffff}";
+    assume(i <= text.len());
+    let r = Source::find_boundary(text, i);
+    check!(i <= r && r <= text.len(), "find_boundary: index <= result <= len");
+    check!(text.is_char_boundary(r), "find_boundary: the result is a char boundary");
+    check!(Source::is_boundary(text, r), "is_boundary agrees with is_char_boundary");
+    let mut j = i;
+    while j < r {
+        check!(!text.is_char_boundary(j), "find_boundary: no boundary is skipped");
+        j += 1;
+    }
+    check!(r - i <= 3, "find_boundary: a boundary is at most three bytes away");
+    check!(Source::is_boundary(text, i) == text.is_char_boundary(i), "is_boundary(str)");
+}
+
+pub fn find_boundary_bytes_contract<const N: usize>(buf: &[u8; N], i: usize) {
+    let src: &[u8] = &buf[..];
+    check!(Source::is_boundary(src, i) == (i <= N), "is_boundary([u8]) is index <= len");
+    assume(i <= N);
+    check!(Source::find_boundary(src, i) == i, "find_boundary([u8]) is the identity");
+}
+
 pub mod proofs;
